@@ -122,3 +122,40 @@ def run_card(pid, tier, seed):
         'exhaustive': True,
     }
     return core.finish(pid, tier, seed, t0, violations, cov, CARD_ASSUME)
+
+
+# ---------------------------------------------------------------------------------------------------
+# TOKEN unit (strings): HandRangeToken::from_str with every Regex::new(r"...") call site replaced, in the
+# scratch copy only, by a DFA generated from that literal; harness module appended to hand_range_token.rs
+def token_injector(scratch):
+    from extract import dfa
+    p = os.path.join(scratch, 'src', 'hand_range', 'hand_range_token.rs')
+    src = open(p).read()
+    try:
+        new, pats = dfa.rewrite_source(src)
+        dfas = [dfa.compile_dfa(x) for x in pats]
+        ncases = dfa.selftest(pats)
+    except Exception as e:
+        raise Undecided('regex literals of the current source are outside the DFA generator\'s subset: %s' % e)
+    if len(pats) == 0:
+        raise Undecided('no Regex::new(r"...") call sites found')
+    new += open(os.path.join(VERIF, 'kani', 'token_harness.rs')).read()
+    open(p, 'w').write(new)
+    open(os.path.join(scratch, 'src', 'verif_dfa.rs'), 'w').write(dfa.emit_rust(dfas))
+    open(os.path.join(scratch, 'src', 'lib.rs'), 'a').write('\n#[cfg(kani)]\nmod verif_dfa;\n')
+    token_injector.info = {'regex_literals': pats, 'dfa_vs_python_re_cases': ncases}
+
+
+def run_token(names, timeout):
+    hf = os.path.join(VERIF, 'kani', 'card_harness.rs')   # also injected (harmless); token harnesses come from the injector
+    r = run_kani(hf, names, flags=('-Z', 'stubbing'), timeout=timeout, pre_inject=token_injector)
+    r['names'] = names
+    r['dfa'] = getattr(token_injector, 'info', None)
+    return r
+
+
+def run_card_names(names, timeout=900):
+    hf = os.path.join(VERIF, 'kani', 'card_harness.rs')
+    r = run_kani(hf, names, timeout=timeout)
+    r['names'] = names
+    return r
